@@ -135,8 +135,16 @@ fn verdict(local: &Sink, monitor: &str) -> Result<(), String> {
     Ok(())
 }
 
-/// Replay of the generic board-shaped cases (state / edge / merge / cand).
+/// Replay of the generic board-shaped cases (state / edge / merge / cand). If the library no longer
+/// hands out the root board at all (the input is rejected), the recorded violation about that board
+/// cannot occur: the replay does not reproduce.
 pub fn replay_board_case(prop: &str, mon: &dyn Monitor, cand: &dyn CandMonitor, body: &Value) -> Result<(), String> {
+    match replay_board_case_inner(prop, mon, cand, body) {
+        Err(e) if e.starts_with("MACHINERY") && e.contains("rejected") => Ok(()),
+        other => other,
+    }
+}
+fn replay_board_case_inner(prop: &str, mon: &dyn Monitor, cand: &dyn CandMonitor, body: &Value) -> Result<(), String> {
     let case = &body["case"];
     let monitor = body["monitor"].as_str().unwrap_or("");
     let local = Sink::new(prop, 0);
